@@ -2,8 +2,9 @@ import DuneVerif.Model.C06Life
 /-!
 C06 — object histories: the invariant behind `object_histories` (Props/C06.lean).
 
-`CommInv slots live next`: the communicator handles held by the live objects are exactly the live handles of the MPI
-table, pairwise different, none of them is the user's communicator `0`, and all are older than the next fresh handle.
+`CommInv slots live users next`: the communicator handles held by the live objects are exactly the live handles of the
+MPI table, pairwise different, none of them is a user communicator (`< users`), and all are older than the next fresh
+handle.
 -/
 namespace DV.C06
 
@@ -18,23 +19,23 @@ theorem setSlot_setSlot {β : Type} (f : Nat → Option β) (s : Nat) (a b : Opt
   funext i
   by_cases h : i = s <;> simp [setSlot, h]
 
-structure CommInv (slots : Nat → Option VscObj) (live : List Nat) (next : Nat) : Prop where
+structure CommInv (slots : Nat → Option VscObj) (live : List Nat) (users next : Nat) : Prop where
   alive : ∀ s o, slots s = some o → o.comm ∈ live
   priv : ∀ s t o o', slots s = some o → slots t = some o' → o.comm = o'.comm → s = t
   noleak : ∀ c ∈ live, ∃ s o, slots s = some o ∧ o.comm = c
   nodup : live.Nodup
-  fresh : ∀ c ∈ live, c < next ∧ c ≠ 0
-  pos : 0 < next
+  fresh : ∀ c ∈ live, users ≤ c ∧ c < next
+  le : users ≤ next
 
-theorem CommInv.init : CommInv (fun _ => none) [] 1 :=
+theorem CommInv.init (users : Nat) : CommInv (fun _ => none) [] users users :=
   ⟨(by intro s o h; cases h), (by intro s t o o' h; cases h), (by intro c h; cases h), List.nodup_nil,
-    (by intro c h; cases h), Nat.one_pos⟩
+    (by intro c h; cases h), Nat.le_refl _⟩
 
 /-- the destructor's part: the object of slot `s` goes, its communicator is freed -/
-theorem CommInv.release {slots : Nat → Option VscObj} {live : List Nat} {next : Nat} (h : CommInv slots live next)
-    (s : Nat) (me : VscObj) (hs : slots s = some me) :
-    CommInv (setSlot slots s none) (live.erase me.comm) next := by
-  refine ⟨?_, ?_, ?_, ?_, ?_, h.pos⟩
+theorem CommInv.release {slots : Nat → Option VscObj} {live : List Nat} {users next : Nat}
+    (h : CommInv slots live users next) (s : Nat) (me : VscObj) (hs : slots s = some me) :
+    CommInv (setSlot slots s none) (live.erase me.comm) users next := by
+  refine ⟨?_, ?_, ?_, ?_, ?_, h.le⟩
   · intro i o hi
     by_cases his : i = s
     · subst his; simp [setSlot] at hi
@@ -64,11 +65,11 @@ theorem CommInv.release {slots : Nat → Option VscObj} {live : List Nat} {next 
     exact h.fresh c (List.mem_of_mem_erase hc)
 
 /-- the `MPI_Comm_dup` part of a constructor: a new object with the fresh handle appears in the empty slot `s` -/
-theorem CommInv.acquire {slots : Nat → Option VscObj} {live : List Nat} {next : Nat} (h : CommInv slots live next)
-    (s : Nat) (hs : slots s = none) (b m : Nat) :
-    CommInv (setSlot slots s (some ⟨b, m, next⟩)) (next :: live) (next + 1) := by
-  have hnew : next ∉ live := fun hm => Nat.lt_irrefl _ (h.fresh next hm).1
-  refine ⟨?_, ?_, ?_, ?_, ?_, Nat.succ_pos _⟩
+theorem CommInv.acquire {slots : Nat → Option VscObj} {live : List Nat} {users next : Nat}
+    (h : CommInv slots live users next) (s : Nat) (hs : slots s = none) (b m : Nat) :
+    CommInv (setSlot slots s (some ⟨b, m, next⟩)) (next :: live) users (next + 1) := by
+  have hnew : next ∉ live := fun hm => Nat.lt_irrefl _ (h.fresh next hm).2
+  refine ⟨?_, ?_, ?_, ?_, ?_, Nat.le_succ_of_le h.le⟩
   · intro i o hi
     by_cases his : i = s
     · subst his
@@ -113,54 +114,91 @@ theorem CommInv.acquire {slots : Nat → Option VscObj} {live : List Nat} {next 
   · intro c hc
     rcases List.mem_cons.1 hc with e | hc
     · subst e
-      exact ⟨Nat.lt_succ_self _, Nat.pos_iff_ne_zero.1 h.pos⟩
-    · exact ⟨Nat.lt_succ_of_lt (h.fresh c hc).1, (h.fresh c hc).2⟩
+      exact ⟨h.le, Nat.lt_succ_self _⟩
+    · exact ⟨(h.fresh c hc).1, Nat.lt_succ_of_lt (h.fresh c hc).2⟩
 
-/-- the whole invariant: configuration = value semantics, no MPI call on a dead handle so far, `CommInv` -/
+/-- the whole invariant: configuration = value semantics, no MPI call on a dead handle so far, `CommInv`, and the user
+    communicators are their own origin -/
 structure LifeInv (w : World) (σ : SpecWorld) : Prop where
-  cfg : ∀ s, (w.slots s).map VscObj.cfg = σ s
+  cfg : ∀ s, (w.slots s).map (objCfg w.origin) = σ s
   nofault : w.fault = false
-  comm : CommInv w.slots w.liveComms w.nextComm
+  comm : CommInv w.slots w.liveComms w.users w.nextComm
+  userOrigin : ∀ u, u < w.users → w.origin u = u
 
-theorem LifeInv.init : LifeInv World.init (fun _ => none) := ⟨fun _ => rfl, rfl, CommInv.init⟩
+theorem LifeInv.init (users : Nat) : LifeInv (World.init users) (fun _ => none) :=
+  ⟨fun _ => rfl, rfl, CommInv.init users, fun _ _ => rfl⟩
 
 theorem LifeInv.none_iff {w : World} {σ : SpecWorld} (h : LifeInv w σ) (s : Nat) : w.slots s = none ↔ σ s = none := by
   rw [← h.cfg s]
   cases w.slots s <;> simp
 
 theorem LifeInv.some_of {w : World} {σ : SpecWorld} (h : LifeInv w σ) {s : Nat} {o : VscObj} (hs : w.slots s = some o) :
-    σ s = some o.cfg := by
+    σ s = some (objCfg w.origin o) := by
   rw [← h.cfg s, hs]
   rfl
 
 theorem valid_of_mem (w : World) (c : Nat) (h : c ∈ w.liveComms) : w.valid c = true := by
   simp [World.valid, h]
 
-/-- configuration part of placing an object -/
-theorem cfg_setSlot {slots : Nat → Option VscObj} {σ : SpecWorld} (h : ∀ s, (slots s).map VscObj.cfg = σ s)
-    (s : Nat) (o : Option VscObj) : ∀ i, (setSlot slots s o i).map VscObj.cfg = setSlot σ s (o.map VscObj.cfg) i := by
+theorem valid_of_user (w : World) (c : Nat) (h : c < w.users) : w.valid c = true := by
+  simp [World.valid, h]
+
+/-- the origin table after `MPI_Comm_dup(c, &next)` -/
+abbrev dupOrigin (origin : Nat → Nat) (next c : Nat) : Nat → Nat := fun d => if d = next then origin c else origin d
+
+/-- configuration part of placing the duplicate of `c` into slot `s`: the objects that exist keep their configuration
+    (their handles are older than the fresh one), the new one has the origin of `c` -/
+theorem cfg_place {slots : Nat → Option VscObj} {live : List Nat} {users next : Nat} {origin : Nat → Nat} {σ : SpecWorld}
+    (hc : CommInv slots live users next) (h : ∀ s, (slots s).map (objCfg origin) = σ s) (s b m c : Nat) :
+    ∀ i, (setSlot slots s (some ⟨b, m, next⟩) i).map (objCfg (dupOrigin origin next c)) =
+      setSlot σ s (some (b, m, origin c)) i := by
+  intro i
+  by_cases his : i = s
+  · subst his; simp [setSlot, objCfg, dupOrigin]
+  · rw [setSlot_other _ _ _ _ his, setSlot_other _ _ _ _ his, ← h i]
+    cases hi : slots i with
+    | none => rfl
+    | some o =>
+      have hlt := (hc.fresh _ (hc.alive i o hi)).2
+      have hne : o.comm ≠ next := Nat.ne_of_lt hlt
+      simp [objCfg, dupOrigin, hne]
+
+theorem cfg_setSlot_none {slots : Nat → Option VscObj} {origin : Nat → Nat} {σ : SpecWorld}
+    (h : ∀ s, (slots s).map (objCfg origin) = σ s) (s : Nat) :
+    ∀ i, (setSlot slots s none i).map (objCfg origin) = setSlot σ s none i := by
   intro i
   by_cases his : i = s
   · subst his; simp [setSlot]
   · simp [setSlot, his, h i]
 
+theorem userOrigin_dup {origin : Nat → Nat} {users next : Nat} (h : ∀ u, u < users → origin u = u) (hle : users ≤ next)
+    (c : Nat) : ∀ u, u < users → dupOrigin origin next c u = u := by
+  intro u hu
+  have : u ≠ next := Nat.ne_of_lt (Nat.lt_of_lt_of_le hu hle)
+  simp [dupOrigin, this, h u hu]
+
 /-- **one statement.**  Code level and value semantics accept the same statements, and the invariant is kept. -/
 theorem lifeStep_inv (dflt : Nat) (w : World) (σ : SpecWorld) (h : LifeInv w σ) (op : LifeOp) :
-    match lifeStep dflt w op, specStep dflt σ op with
-    | some w', some σ' => LifeInv w' σ'
+    match lifeStep dflt w op, specStep w.users dflt σ op with
+    | some w', some σ' => LifeInv w' σ' ∧ w'.users = w.users
     | none, none => True
     | _, _ => False := by
   cases op with
-  | construct s size iface =>
+  | construct s size iface user =>
     cases hs : w.slots s with
     | some o => simp [lifeStep, specStep, hs, h.some_of hs]
     | none =>
       have hσ := (h.none_iff s).1 hs
-      simp only [lifeStep, specStep, hs, hσ, World.dup]
-      refine ⟨?_, ?_, ?_⟩
-      · exact cfg_setSlot h.cfg s (some ⟨size.getD dflt, iface, w.nextComm⟩)
-      · simp [h.nofault, World.valid]
-      · exact h.comm.acquire s hs _ _
+      by_cases hu : user < w.users
+      · simp only [lifeStep, specStep, hs, hσ, World.dup, if_pos hu]
+        refine ⟨⟨?_, ?_, ?_, ?_⟩, trivial⟩
+        · have := cfg_place h.comm h.cfg s (size.getD dflt) iface user
+          rw [h.userOrigin user hu] at this
+          exact this
+        · simp [h.nofault, valid_of_user w user hu]
+        · exact h.comm.acquire s hs _ _
+        · exact userOrigin_dup h.userOrigin h.comm.le user
+      · simp [lifeStep, specStep, hs, hσ, hu]
   | copy s t =>
     cases hs : w.slots s with
     | some o =>
@@ -175,10 +213,11 @@ theorem lifeStep_inv (dflt : Nat) (w : World) (σ : SpecWorld) (h : LifeInv w σ
       | some o =>
         have hσt := h.some_of ht
         simp only [lifeStep, specStep, hs, ht, hσ, hσt, World.dup]
-        refine ⟨?_, ?_, ?_⟩
-        · exact cfg_setSlot h.cfg s (some ⟨o.maxBufferSize, o.interface, w.nextComm⟩)
+        refine ⟨⟨?_, ?_, ?_, ?_⟩, trivial⟩
+        · exact cfg_place h.comm h.cfg s o.maxBufferSize o.interface o.comm
         · simp [h.nofault, valid_of_mem w _ (h.comm.alive t o ht)]
         · exact h.comm.acquire s hs _ _
+        · exact userOrigin_dup h.userOrigin h.comm.le o.comm
   | assign s t =>
     cases hs : w.slots s with
     | none =>
@@ -195,7 +234,7 @@ theorem lifeStep_inv (dflt : Nat) (w : World) (σ : SpecWorld) (h : LifeInv w σ
         by_cases hst : s = t
         · subst hst
           simp only [lifeStep, specStep, hs, hσ, if_true]
-          refine ⟨?_, h.nofault, h.comm⟩
+          refine ⟨⟨?_, h.nofault, h.comm, h.userOrigin⟩, trivial⟩
           intro i
           by_cases his : i = s
           · subst his; simp [setSlot, hs]
@@ -205,11 +244,16 @@ theorem lifeStep_inv (dflt : Nat) (w : World) (σ : SpecWorld) (h : LifeInv w σ
           have hrel := h.comm.release s me hs
           have hacq := hrel.acquire s (setSlot_same _ _ _) o.maxBufferSize o.interface
           rw [setSlot_setSlot] at hacq
-          refine ⟨?_, ?_, hacq⟩
-          · exact cfg_setSlot h.cfg s (some ⟨o.maxBufferSize, o.interface, w.nextComm⟩)
+          refine ⟨⟨?_, ?_, hacq, ?_⟩, trivial⟩
+          · have hplace := cfg_place hrel (cfg_setSlot_none h.cfg s) s o.maxBufferSize o.interface o.comm
+            intro i
+            have := hplace i
+            rw [setSlot_setSlot, setSlot_setSlot] at this
+            exact this
           · have h1 : me.comm ∈ w.liveComms := h.comm.alive s me hs
             have h2 : o.comm ∈ w.liveComms.erase me.comm := (List.mem_erase_of_ne hne).2 (h.comm.alive t o ht)
             simp [h.nofault, h1, World.valid, h2]
+          · exact userOrigin_dup h.userOrigin h.comm.le o.comm
   | destroy s =>
     cases hs : w.slots s with
     | none =>
@@ -218,8 +262,8 @@ theorem lifeStep_inv (dflt : Nat) (w : World) (σ : SpecWorld) (h : LifeInv w σ
     | some me =>
       have hσ := h.some_of hs
       simp only [lifeStep, specStep, hs, hσ, World.free]
-      refine ⟨?_, ?_, h.comm.release s me hs⟩
-      · exact cfg_setSlot h.cfg s none
+      refine ⟨⟨?_, ?_, h.comm.release s me hs, h.userOrigin⟩, trivial⟩
+      · exact cfg_setSlot_none h.cfg s
       · have h1 : me.comm ∈ w.liveComms := h.comm.alive s me hs
         simp [h.nofault, h1]
   | use s =>
@@ -230,13 +274,13 @@ theorem lifeStep_inv (dflt : Nat) (w : World) (σ : SpecWorld) (h : LifeInv w σ
     | some me =>
       have hσ := h.some_of hs
       simp only [lifeStep, specStep, hs, hσ]
-      refine ⟨h.cfg, ?_, h.comm⟩
+      refine ⟨⟨h.cfg, ?_, h.comm, h.userOrigin⟩, trivial⟩
       simp [h.nofault, valid_of_mem w _ (h.comm.alive s me hs)]
 
 /-- **whole programs.** -/
 theorem lifeExec_inv (dflt : Nat) : ∀ (prog : List LifeOp) (w : World) (σ : SpecWorld), LifeInv w σ →
-    match lifeExec dflt w prog, specExec dflt σ prog with
-    | some w', some σ' => LifeInv w' σ'
+    match lifeExec dflt w prog, specExec w.users dflt σ prog with
+    | some w', some σ' => LifeInv w' σ' ∧ w'.users = w.users
     | none, none => True
     | _, _ => False := by
   intro prog
@@ -246,10 +290,18 @@ theorem lifeExec_inv (dflt : Nat) : ∀ (prog : List LifeOp) (w : World) (σ : S
     intro w σ h
     have hstep := lifeStep_inv dflt w σ h op
     simp only [lifeExec, specExec]
-    cases h1 : lifeStep dflt w op <;> cases h2 : specStep dflt σ op <;> rw [h1, h2] at hstep
+    cases h1 : lifeStep dflt w op <;> cases h2 : specStep w.users dflt σ op <;> rw [h1, h2] at hstep
     · simp
     · exact hstep.elim
     · exact hstep.elim
-    · simpa using ih _ _ hstep
+    · rename_i w1 σ1
+      have := ih w1 σ1 hstep.1
+      rw [hstep.2] at this
+      simp only [Option.bind_some]
+      cases h3 : lifeExec dflt w1 ops <;> cases h4 : specExec w.users dflt σ1 ops <;> rw [h3, h4] at this
+      · trivial
+      · exact this
+      · exact this
+      · exact this
 
 end DV.C06
